@@ -169,7 +169,7 @@ def main(argv):
                        'trace files: tokens without white space, instruction lines do not start with a keyword of the format']
     thorough = vlib.tier() == 'thorough'
     n_sim = 400 if thorough else 64
-    n_trace = 2500 if thorough else 240
+    n_trace = 2500 if thorough else 700
 
     replay_file = argv[argv.index('--replay') + 1] if '--replay' in argv else None
 
